@@ -56,6 +56,8 @@ PairsB == LET a == FromInt(k)  b == FromInt(j)
              /\ AlgoMulE2(N, <<>>, b) = PMul(N, 2, <<>>, b) /\ AlgoMulE2(N, b, <<>>) = PMul(N, 2, b, <<>>)
              /\ AlgoDivE2(N, <<>>, b) = PDiv(N, 2, <<>>, b) /\ AlgoDivE2(N, b, <<>>) = PDiv(N, 2, b, <<>>)
              /\ AlgoDivE2(N, a, b) = PDiv(N, 2, a, b) /\ AlgoDivE2(N, Neg(N, a), b) = PDiv(N, 2, Neg(N, a), b)
+             /\ AlgoMulE1(N, a, b) = PMul(N, 1, a, b) /\ AlgoMulE1(N, Neg(N, a), b) = PMul(N, 1, Neg(N, a), b)
+             /\ AlgoMulE1(N, <<>>, b) = PMul(N, 1, <<>>, b) /\ AlgoMulE1(N, b, <<>>) = PMul(N, 1, b, <<>>)
              /\ (AddSamePre(N, a, b) => AlgoAddSameE2(N, a, b) = PAdd(N, 2, a, b))
              /\ (AddSamePre(N, Neg(N, a), b) => AlgoAddSameE2(N, Neg(N, a), b) = PAdd(N, 2, Neg(N, a), b))
 
@@ -79,6 +81,7 @@ LatB == LET a == LatPat(k)  b == LatPat(j)
            /\ AlgoAddSameE2(N, a, b) = PAdd(N, 2, a, b)
            /\ AlgoSubE2(N, a, b) = PSub(N, 2, a, b)
            /\ AlgoDivE2(N, a, b) = PDiv(N, 2, a, b) /\ AlgoDivE2(N, b, Neg(N, a)) = PDiv(N, 2, b, Neg(N, a))
+           /\ AlgoMulE1(N, a, b) = PMul(N, 1, a, b) /\ AlgoMulE1(N, Neg(N, a), b) = PMul(N, 1, Neg(N, a), b)
            /\ AlgoAddE2(N, Neg(N, a), b) = PAdd(N, 2, Neg(N, a), b)
            /\ AlgoAddSameE2(N, Neg(N, a), Neg(N, b)) = PAdd(N, 2, Neg(N, a), Neg(N, b))
 LatOk == j = -1 \/ mode # "lat" \/ LatB
